@@ -533,7 +533,7 @@ func (x *Exec) concreteMethod(st *State, recv *Val, m *types.Func) *ssa.Function
 		return nil
 	}
 	// only dispatch when we have something to run or a contract
-	if x.cs.Funcs[fnKey(fn)] != nil || builtinModels[fnKey(fn)] != nil {
+	if x.cs.Funcs[fnKey(fn)] != nil || lookupBuiltinModel(fnKey(fn)) != nil {
 		return fn
 	}
 	if fn.Synthetic != "" && fn.Blocks != nil && !strings.HasPrefix(fn.Synthetic, "instance of") {
@@ -1094,7 +1094,7 @@ func (x *Exec) loopWrites(st *State, fr *Frame, body []*ssa.BasicBlock) []heapKe
 						continue
 					}
 					if callee != nil {
-						if _, ok := builtinModels[fnKey(callee)]; ok {
+						if lookupBuiltinModel(fnKey(callee)) != nil {
 							continue
 						}
 					}
